@@ -541,6 +541,11 @@ def finish(prop, tier, seed, t0, results, rule, nontrivial_classes, floor, assum
 
     for title, keys in sorted(knownhits.items()):
         print("KNOWN-FINDING: property=%s %s" % (prop, title))
+    # every open finding listed for this property is announced on every run; the ones whose witness this run's sample did not
+    # draw are marked as such (the evidence file only counts the observed ones)
+    for k in known:
+        if k.get("status") == "open" and k.get("property") == prop and k["title"] not in knownhits:
+            print("KNOWN-FINDING: property=%s %s [listed in known_findings.json; not re-observed by this run's sample]" % (prop, k["title"]))
     for key, path, r in new:
         print("VIOLATION property=%s replay=%s" % (prop, path))
         print("  key=%s" % key)
